@@ -99,8 +99,10 @@ def cfgs_for(prop, tier):   # noqa: F811  (replaces the draft above)
             out["close_send_drop"] = mk(MaxSend=F(1, 0), AllowClose={"A"}, MaxDrops=F(1, 0))
     elif prop == "C08":
         out["close_both"] = mk(AllowClose={"A", "B"})
-        out["close_drop"] = mk(AllowClose={"A"}, MaxDrops=F(1, 0), WelcomeErr=True)
+        out["close_drop"] = mk(AllowClose={"A"}, MaxDrops=F(1, 0))
+        out["close_welcome_err"] = mk(AllowClose={"A"}, WelcomeErr=True, CodeChoices=Raw('[c \\in {"A","B"} |-> IF c = "A" THEN {<<"4","w">>} ELSE {}]'))
         if not q:
+            out["close_drop_welcome"] = mk(AllowClose={"A"}, MaxDrops=F(1, 0), WelcomeErr=True)
             out["close_send_drop2"] = mk(AllowClose={"A"}, MaxDrops=F(2, 0), MaxSend=F(0, 1))
             out["close_mismatch"] = mk(AllowClose={"A", "B"}, CodeChoices=codesB)
             out["close_connfail"] = mk(AllowClose={"A", "B"}, ConnFails=True, MaxDrops=F(1, 0))
@@ -124,8 +126,9 @@ def cfgs_for(prop, tier):   # noqa: F811  (replaces the draft above)
             out["codes_close_swap"] = mk(CodeChoices=codesB, MaxSend=F(1, 0), MaxSwap=1, AllowClose={"A"})
     elif prop == "C02":
         out["tamper1"] = mk(MaxSend=F(1, 0), MaxTamper=1)
-        out["inject1"] = mk(MaxSend=F(1, 0), MaxInject=1, InjectSet=inj)
+        out["inject1"] = mk(MaxInject=1, InjectSet=inj)
         if not q:
+            out["inject_send"] = mk(MaxSend=F(1, 0), MaxInject=1, InjectSet=inj)
             out["tamper2"] = mk(MaxSend=F(1, 1), MaxTamper=2)
             out["tamper_dup"] = mk(MaxSend=F(2, 0), MaxTamper=1, MaxDup=1)
     return out
@@ -192,11 +195,36 @@ class RealRun:
         cl = self.world.clients[c]
         return [(k, v) for k, v in cl.events if not k.endswith("!") and not (cl.mode == "deferred" and k == "closed")]
 
+    def probe_self_closed(self):
+        """Deferred mode shows the verdict only through close(): after the run, ask each wormhole that
+        was never close()d whether it has already closed by itself (the Deferred then fires at once)."""
+        out = {}
+        for name, cl in self.world.clients.items():
+            out[name] = "-"
+            if cl.mode != "deferred" or cl.close_called:
+                continue
+            res = []
+            try:
+                d = cl.w.close()
+                d.addBoth(res.append)
+            except Exception as e:
+                res.append(e)
+            self.world.settle()
+            if res:
+                from twisted.python.failure import Failure
+                from ..mbconf import _verdict_name
+                v = res[0].value if isinstance(res[0], Failure) else res[0]
+                out[name] = _verdict_name(v)
+        return out
+
     def finish(self, drained, goal=False):
         import gc
         gc.collect()        # "Unhandled error in Deferred" is logged when the Deferred is collected
+        self.tracker.self_closed = self.probe_self_closed()
         rec = self.tracker.record(self.tid, drained=drained, goal=goal, extra={"origin": self.origin})
         self.world.shutdown()
+        self.final_trace = self.world.trace
+        self.world = self.tracker = self.bind = None      # let the wormholes be collected
         return rec
 
     def drain(self, limit=400):
@@ -383,7 +411,7 @@ def replay(prop, path):
         rec = run_.finish(drained)
         verdicts, _ = run_observer(wd, [rec])
     bad = [n for n in DECIDES[prop] if not verdicts[1][n]]
-    for i, st in enumerate(run_.world.trace):
+    for i, st in enumerate(run_.final_trace):
         print("%3d %-40s ev=%s exc=%s" % (i + 1, json.dumps(st["a"])[:40], st["ev"], st["exc"]))
     print("applied %d of %d steps; internal=%s" % (applied, len(entry["schedule"]), rec["internal"]))
     print("observer:", {n: verdicts[1][n] for n in DECIDES[prop]})
@@ -484,13 +512,15 @@ def run(prop, tier):
         nsim = 150 if quick else 1500
         simdir = wd.file("sim")
         os.makedirs(simdir)
-        r = tlc.run(gname + ".tla", gname + ".cfg", cwd=wd.path, workers=1 if quick else 8,
-                    simulate={"num": nsim if quick else nsim // 8, "file": os.path.join(simdir, "tr")},
+        t1 = time.time()
+        r = tlc.run(gname + ".tla", gname + ".cfg", cwd=wd.path, workers=10,
+                    simulate={"num": nsim // 10, "file": os.path.join(simdir, "tr")},
                     depth=70, seed=seed + 1, timeout=1200)
-        behaviours = tlc.read_sim_traces(os.path.join(simdir, "tr"))
-        cov["sim_behaviours"] = len(behaviours)
+        cov.setdefault("timing", {})["simulate_s"] = round(time.time() - t1, 1)
         ndrift = 0
-        for b in behaviours:
+        nbeh = 0
+        for b in tlc.read_sim_traces(os.path.join(simdir, "tr")):
+            nbeh += 1
             tid += 1
             run_, drift = replay_spec_behaviour(tid, b, "tlc-sim", prop)
             drained = run_.drain()
@@ -500,7 +530,8 @@ def run(prop, tier):
                 ndrift += 1
                 if len(cov["drift"]) < 10:
                     cov["drift"].append(dict(drift, tid=tid))
-        cov["replayed_behaviours"] = len(behaviours) + len(cexs)
+        cov["sim_behaviours"] = nbeh
+        cov["replayed_behaviours"] = nbeh + len(cexs)
         cov["replay_drift_count"] = ndrift
         # ---- 3. code -> spec: random schedules on the real system
         nrand = 120 if quick else 1200
@@ -510,7 +541,8 @@ def run(prop, tier):
             runs[tid] = run_
             lines += run_.lines
             records.append(run_.finish(drained, goal=goal))
-        cov["timing"] = {"tlc_exhaustive_s": round(sum(c["wall_s"] for c in cov["tlc_configs"].values()), 1)}
+        cov.setdefault("timing", {})["tlc_exhaustive_s"] = round(sum(c["wall_s"] for c in cov["tlc_configs"].values()), 1)
+        cov["timing"]["real_runs_s"] = round(time.time() - t1 - cov["timing"]["simulate_s"], 1)
         t1 = time.time()
         tv, rtv = run_trace_validation(wd, lines, nrand)
         cov["timing"]["trace_validation_s"] = round(time.time() - t1, 1)
